@@ -33,7 +33,7 @@ type C20Case struct {
 	Delays  string      `json:"delays"` // VERIF_WATCH_DELAYS for the watcher process
 }
 
-const c20Rule = "a package of 1-3 model files importing a sibling package, watched by `yardl generate --watch` (built with the verif tag) x a generated schedule of 2-7 saves (valid change, YAML syntax error, rule violation, file deleted / created, touch without change, the imported package's manifest broken by an import that cannot be fetched / repaired; the last state valid, the last change a save, a creation or a deletion) separated by gaps of 0-120 ms x per-regeneration delays of 0/60/350 ms injected at the hook inside generateImpl, so that an early regeneration can be made to outlast later ones. oracle: after the last save and quiescence (no output change for 1.2 s) the watcher is still running and the output tree equals that of a one-shot `yardl generate` of the final contents. non-trivial = a regeneration was delayed while later saves arrived (or regenerations overlapped in time per the hook log), or an invalid intermediate state occurred; distinct = hash of the schedule"
+const c20Rule = "a package of 1-3 model files importing a sibling package, watched by `yardl generate --watch` (built with the verif tag) x a generated schedule of 2-7 saves (valid change, YAML syntax error, rule violation, file deleted / created, touch without change, the imported package's manifest broken by an import that cannot be fetched / repaired, a valid change of the imported package's model; the last state valid, the last change a save - in the watched package or in the imported one -, a creation or a deletion) separated by gaps of 0-120 ms x per-regeneration delays of 0/60/350 ms injected at the hook inside generateImpl, so that an early regeneration can be made to outlast later ones. oracle: after the last save and quiescence (no output change for 1.2 s) the watcher is still running and the output tree equals that of a one-shot `yardl generate` of the final contents. non-trivial = a regeneration was delayed while later saves arrived (or regenerations overlapped in time per the hook log), or an invalid intermediate state occurred; distinct = hash of the schedule"
 
 const c20Manifest = "namespace: Mdl\nimports:\n  - ../base\npython:\n  outputDir: ../out/py\njson:\n  outputDir: ../out/json\ncpp:\n  sourcesOutputDir: ../out/cpp\n  generateHDF5: false\n  generateCMakeLists: false\n"
 
@@ -70,10 +70,13 @@ func genC20(t *rapid.T) C20Case {
 				kinds = []string{"base-fix"}
 			}
 		}
+		if !last && i != n-2 {
+			kinds = append(kinds, "base-model")
+		}
 		if last {
-			// the final state must be valid: a save of a valid model, or b.yml (which nothing
-			// refers to) removed or created
-			kinds = []string{"valid", "valid", "valid", "create-b"}
+			// the final state must be valid: a save of a valid model (of the watched package or of the
+			// package it imports), or b.yml (which nothing refers to) removed or created
+			kinds = []string{"valid", "valid", "valid", "create-b", "base-model", "base-model"}
 			if hasB {
 				kinds = append(kinds, "delete-b")
 			}
@@ -104,6 +107,9 @@ func genC20(t *rapid.T) C20Case {
 			hasB = true
 		case "touch":
 			e.Content = "" // resolved at run time: rewrite current content
+		case "base-model":
+			// a valid change in the imported package: its types are generated along with the watched package's
+			e.File, e.Content = "../base/base.yml", fmt.Sprintf("BaseRec: !record\n  fields:\n    v: int\n    w%d: float\n", i)
 		case "base-break":
 			// the manifest of the imported package (outside the watched directory) names an import that
 			// cannot be fetched; the next regeneration fails while loading it
